@@ -59,10 +59,12 @@ def led_host_trace(history: list[dict], typing: str = "int") -> list[dict]:
         for c in history:
             tap.micro.clear()
             before = led.get_brightness()
-            a = [typed(x, typing) for x in c["a"]]
+            act = c["act"]
+            # floats only where the API takes a quantity (brightness, durations); counts and steps stay ints
+            floatable = {"set_brightness": [0], "blink": [0], "fade_in": [1], "fade_out": [1], "flash_pattern": [0]}.get(act, [])
+            a = [typed(x, typing) if (typing != "float" or j in floatable) else x for j, x in enumerate(c["a"])]
             res = "ok"
             try:
-                act = c["act"]
                 if act in ("on", "off", "toggle"):
                     getattr(led, act)()
                 elif act == "set_brightness":
@@ -81,4 +83,152 @@ def led_host_trace(history: list[dict], typing: str = "int") -> list[dict]:
             evs.append({"act": c["act"], "a": list(c["a"]), "p": list(c["p"]), "on": bool(st) if isinstance(st, (bool, int)) else st,
                         "bright": br if isinstance(br, int) and not isinstance(br, bool) else (int(br) if br == int(br) else -999),
                         "wave": merge(before, list(tap.micro)), "res": res})
+        return evs
+
+
+# ------------------------------------------------------------------ RGBLed
+def _rgb_call(dev, c, a):
+    act = c["act"]
+    if act == "off":
+        dev.off()
+    elif act in ("set_color", "on"):
+        getattr(dev, act)(a[0], a[1], a[2])
+    elif act == "fade":
+        dev.fade(a[0], a[1], a[2], a[3], a[4])
+    elif act == "blink":
+        dev.blink(a[0], a[1], a[2], a[3], a[4])
+    else:
+        raise AssertionError(act)
+
+
+def rgb_host_trace(history: list[dict], typing: str = "int") -> list[dict]:
+    from Reduino.Actuators import RGBLed
+    with SleepTap() as tap:
+        dev = RGBLed(3, 5, 6)
+        real_set = dev.set_color
+
+        def set_c(red, green, blue):
+            real_set(red, green, blue)
+            tap.micro.append(("lv", [int(x) for x in dev.get_color()]))
+
+        dev.set_color = set_c
+
+        def snap(c, res, before):
+            col = [x if isinstance(x, int) else -999 for x in dev.get_color()]
+            return {"act": c["act"], "a": list(c["a"]), "col": [int(x) for x in col], "on": bool(dev.get_state()),
+                    "wave": merge(before, list(tap.micro)), "res": res}
+
+        evs = [snap({"act": "init", "a": []}, "init", [0, 0, 0])]
+        for c in history:
+            tap.micro.clear()
+            before = [int(x) for x in dev.get_color()]
+            # durations may be given as floats by the API; colour components must stay ints (floats raise TypeError)
+            a = list(c["a"])
+            if typing == "float" and c["act"] in ("fade", "blink"):
+                a[3 if c["act"] == "fade" else 4] = float(a[3 if c["act"] == "fade" else 4])
+            if typing == "bool":
+                a = [typed(x, "bool") if i < 3 else x for i, x in enumerate(a)]
+            res = "ok"
+            try:
+                _rgb_call(dev, c, a)
+            except (ValueError, TypeError):
+                res = "raise"
+            evs.append(snap(c, res, before))
+        return evs
+
+
+# ------------------------------------------------------------------ Servo (milli-units)
+def milli(x) -> int:
+    f = Fraction(x) * 1000
+    return int((f + Fraction(1, 2)).__floor__())
+
+
+def servo_host_trace(case: dict, typing: str = "float") -> list[dict]:
+    """case = {"cal": {mina,maxa,minp,maxp in milli-units}, "h": [{"act","v"}...]}"""
+    from Reduino.Actuators import Servo
+    cal = case["cal"]
+
+    def arg(m):
+        return m // 1000 if (typing == "int" and m % 1000 == 0) else m / 1000.0
+
+    dev = Servo(9, min_angle=arg(cal["mina"]), max_angle=arg(cal["maxa"]), min_pulse_us=arg(cal["minp"]), max_pulse_us=arg(cal["maxp"]))
+    nocmd = {"op": "none", "v": 0}
+
+    def snap(c, res):
+        return {"act": c["act"], "v": c["v"], "angle": milli(dev.read()), "pulse": milli(dev.read_us()), "cmd": nocmd, "res": res}
+
+    evs = [snap({"act": "init", "v": 0}, "init")]
+    for c in case["h"]:
+        res = "ok"
+        try:
+            getattr(dev, c["act"])(arg(c["v"]))
+        except (ValueError, TypeError):
+            res = "raise"
+        evs.append(snap(c, res))
+    return evs
+
+
+# ------------------------------------------------------------------ DCMotor (speeds in U = 1/20000)
+MOTOR_ONE = 20000
+
+
+def to_u(x) -> int:
+    f = Fraction(x) * MOTOR_ONE
+    return int((f + Fraction(1, 2)).__floor__())
+
+
+def _motor_level(dev):
+    a = dev.get_applied_speed()
+    if dev.get_mode() == "brake":
+        return ["brake", 0]
+    # speeds are resolved to U = 1/20000; float noise far below U (a ramp passing through zero computes
+    # 1.7e-19 instead of 0.0) is not a drive command
+    if to_u(abs(a)) == 0:
+        return ["coast", 0]
+    return ["fwd", to_u(a)] if a > 0 else ["rev", to_u(-a)]
+
+
+def motor_host_trace(history: list[dict], typing: str = "float") -> list[dict]:
+    from Reduino.Actuators import DCMotor
+    with SleepTap() as tap:
+        dev = DCMotor(2, 4, 11)
+        for name in ("set_speed", "stop", "coast", "invert"):
+            real = getattr(dev, name)
+
+            def wrapped(*a, __real=real, **kw):
+                __real(*a, **kw)
+                tap.micro.append(("lv", _motor_level(dev)))
+
+            setattr(dev, name, wrapped)
+
+        def spd(u):
+            if typing == "int" and u % MOTOR_ONE == 0:
+                return u // MOTOR_ONE
+            return u / MOTOR_ONE
+
+        def snap(c, res, before):
+            return {"act": c["act"], "a": list(c["a"]), "speed": to_u(dev.get_speed()), "inv": bool(dev.is_inverted()),
+                    "mode": str(dev.get_mode()), "applied": to_u(dev.get_applied_speed()),
+                    "wave": merge(before, list(tap.micro)), "res": res}
+
+        evs = [snap({"act": "init", "a": []}, "init", ["coast", 0])]
+        for c in history:
+            tap.micro.clear()
+            before = _motor_level(dev)
+            act, a = c["act"], c["a"]
+            res = "ok"
+            try:
+                if act in ("stop", "coast", "invert"):
+                    getattr(dev, act)()
+                elif act in ("set_speed", "backward"):
+                    getattr(dev, act)(spd(a[0]))
+                elif act == "ramp":
+                    dev.ramp(spd(a[0]), a[1])
+                elif act == "run_for":
+                    dev.run_for(a[0], spd(a[1]))
+                else:
+                    raise AssertionError(act)
+            except (ValueError, TypeError):
+                res = "raise"
+            evs.append(snap(c, res, before))
         return evs
